@@ -43,7 +43,15 @@ pub enum Fault {
     /// damage the image left by the (cleanly dropped) history, then open
     Damage { ops: Vec<DamageOp> },
     /// fail the `call`-th fs call of the final `open`
-    IoErr { call: usize, errno: i32, persistent: bool, consumed: usize },
+    IoErr {
+        call: usize,
+        errno: i32,
+        persistent: bool,
+        consumed: usize,
+        /// damage applied to the image before recovery (corrupted blocks exercise the reader's resync paths)
+        #[serde(default)]
+        damage: Vec<DamageOp>,
+    },
     /// run the history under each policy and compare (C14)
     Policies { policies: Vec<Policy>, ticks_seed: u64 },
     /// compare with the projection on queue q (C18); optional crash point in the full history
